@@ -12,8 +12,16 @@ func init() { drivers["C16"] = checkC16 }
 
 func installIsNilSpecHook(ex *Exec) {
 	ex.hooks["IsNil"] = func(ex *Exec, st *State, f *ssa.Function, a []Value) (Value, bool) {
-		return ex.isNilSpec(a[0].(*IfaceVal)), true
+		return ex.isNilSpec(asItemVal(a[0])), true
 	}
+}
+
+// asItemVal: an item argument; an element read beyond every alternative's length (dead path) is any item.
+func asItemVal(v Value) *IfaceVal {
+	if iv, ok := v.(*IfaceVal); ok {
+		return iv
+	}
+	return opaqueItem(Fresh("oob", SItem))
 }
 
 // itemPreds: the item's own answers (results of its methods) as terms.
@@ -106,6 +114,13 @@ func checkC16(w *World, c *Check) {
 		})
 	}
 	// idempotence of a position: a flattened position holds an IRI, and IRIs are kept
+	maxN := 3
+	if c.Tier == "thorough" {
+		maxN = 4
+	}
+	for n := 1; n <= maxN; n++ {
+		c16ListBounded(w, c, n)
+	}
 	guard(c, "C16/idempotent", func() {
 		ex := w.NewExec()
 		installIsNilSpecHook(ex)
@@ -268,4 +283,171 @@ func TestVerifReplay(t *testing.T) {
 }
 `) + "\n"
 	}
+}
+
+// c16ListBounded: the real FlattenItemCollection (over the real ItemCollectionDeduplication) on a list of n
+// arbitrary items: survivors of the de-duplication keep their order, each survivor that is an object with an
+// id is replaced by the IRI of that id, everything else (IRIs, links, id-less objects, nil entries) is the same item.
+func c16ListBounded(w *World, c *Check, n int) {
+	grp := fmt.Sprintf("C16/list/entries=%d", n)
+	guard(c, grp, func() {
+		ex := w.NewExec()
+		ex.symLoopBound = n + 1
+		ex.unwindAssert = true
+		installIsNilSpecHook(ex)
+		var eqArgs []*Term
+		seen := map[*Term]bool{}
+		ex.hooks["(IRI).Equals"] = func(ex *Exec, st *State, fn *ssa.Function, args []Value) (Value, bool) {
+			for _, a := range args[:2] {
+				if t := a.(*Term); !seen[t] {
+					seen[t] = true
+					eqArgs = append(eqArgs, t)
+				}
+			}
+			return App("iriEq", SBool, args[0].(*Term), args[1].(*Term), args[2].(*Term)), true
+		}
+		st := newState()
+		var es []*Term
+		for k := 0; k < n; k++ {
+			es = append(es, Var(fmt.Sprintf("e%d", k), SItem))
+		}
+		p, _ := ex.mkItemList(w, "col", es)
+		col := ex.load(st, p, nil, 0).(*SliceVal)
+		fn := w.Func("FlattenItemCollection")
+		res := ex.Call(st, fn, []Value{col}, nil).(*SliceVal)
+		eq := func(a, b *Term) *Term { return App("iriEq", SBool, a, b, TFalse) }
+		type ent struct {
+			e, key, counted, first, keep *Term
+		}
+		var ents []*ent
+		for k, e := range es {
+			en := &ent{e: e}
+			en.key = Ite(mIsObject(e), App("m.GetID", SStr, e), mGetLink(e))
+			// an entry takes part in the de-duplication when it names somebody: an object or link with a non-empty id
+			en.counted = And(Not(ex.isNilSpec(opaqueItem(e))), Or(mIsObject(e), App("m.IsLink", SBool, e)), Gt(SLen(en.key), IntLit(0)))
+			var dup []*Term
+			for _, pr := range ents[:k] {
+				dup = append(dup, And(pr.counted, eq(en.key, pr.key)))
+			}
+			en.first = And(en.counted, Not(Or(dup...)))
+			en.keep = Or(Not(en.counted), en.first)
+			ents = append(ents, en)
+		}
+		var dom []*Term
+		for _, en := range ents {
+			dom = append(dom, en.key)
+		}
+		dom = append(dom, eqArgs...)
+		var equiv []*Term
+		for _, a := range dom {
+			equiv = append(equiv, eq(a, a))
+			for _, b := range dom {
+				equiv = append(equiv, Implies(eq(a, b), eq(b, a)))
+				for _, d := range dom {
+					equiv = append(equiv, Implies(And(eq(a, b), eq(b, d)), eq(a, d)))
+				}
+			}
+		}
+		// an object's link is its id
+		for _, e := range es {
+			equiv = append(equiv, Implies(mIsObject(e), Eq(App("m.GetID", SStr, e), mGetLink(e))))
+		}
+		common := append(append([]*Term{ex.NoPanic()}, equiv...), ex.assumes...)
+		pos := ex.pos(fn.Pos())
+		fns := []string{"FlattenItemCollection", "ItemCollectionDeduplication"}
+		var keeps []*Term
+		for _, en := range ents {
+			keeps = append(keeps, en.keep)
+		}
+		c.Add(&Obligation{Name: grp + "/length", Group: grp, Common: common, Goal: Eq(sliceLen(res), sumBools(keeps)), Pos: pos, Funcs: fns, Bounded: n, Replay: c16ListBoundedReplay})
+		for k, en := range ents {
+			at, ok := ex.readElem(st, res, sumBools(keeps[:k])).(*IfaceVal)
+			if !ok {
+				at = &IfaceVal{Alts: []IfaceAlt{{C: TTrue}}}
+			}
+			flat, keep := ex.flattenPosGoals(w, en.e, at)
+			c.Add(&Obligation{Name: fmt.Sprintf("%s/survivor-%d/object-with-id-becomes-its-iri", grp, k), Group: grp, Common: common, Hyps: []*Term{en.keep, Not(mIsCollection(en.e))}, Goal: flat, Pos: pos, Funcs: fns, Bounded: n, Replay: c16ListBoundedReplay})
+			c.Add(&Obligation{Name: fmt.Sprintf("%s/survivor-%d/everything-else-stays", grp, k), Group: grp, Common: common, Hyps: []*Term{en.keep, Not(mIsCollection(en.e))}, Goal: keep, Pos: pos, Funcs: fns, Bounded: n, Replay: c16ListBoundedReplay})
+		}
+		for i, r := range ex.residuals {
+			c.Add(&Obligation{Name: fmt.Sprintf("%s/unwinding#%d", grp, i), Group: grp + "/unwinding", Common: append(equiv, ex.assumes...), Goal: Not(r), Pos: pos, Funcs: fns, Bounded: n})
+		}
+		for i, pn := range ex.panics {
+			c.Add(&Obligation{Name: fmt.Sprintf("%s/nopanic/%s#%d", grp, pn.Kind, i), Group: grp + "/nopanic", Common: append(equiv, ex.assumes...), Goal: Not(pn.C), Pos: pn.Pos, Funcs: fns, Bounded: n})
+		}
+	})
+}
+
+func c16ListBoundedReplay(map[string]string) string {
+	return `package activitypub
+
+import "testing"
+
+func TestVerifReplay(t *testing.T) {
+	iri := func(s string) IRI { return IRI("https://example.com/verif/" + s) }
+	obj := func(s string) Item { return &Object{ID: iri(s), Type: NoteType} }
+	anon := func(s string) Item { return &Object{Type: NoteType, Name: NaturalLanguageValues{{Value: Content(s)}}} }
+	link := func(s string) Item { return &Link{Href: iri(s), Type: MentionType} }
+	pool := []func() Item{func() Item { return iri("a") }, func() Item { return obj("a") }, func() Item { return obj("b") }, func() Item { return anon("x") }, func() Item { return anon("y") }, func() Item { return link("l") }, func() Item { return nil }}
+	same := func(a, b Item) bool {
+		if IsNil(a) || IsNil(b) {
+			return IsNil(a) && IsNil(b)
+		}
+		return a == b
+	}
+	var rec func(cur []int, depth int)
+	check := func(idx []int) {
+		var in ItemCollection
+		for _, i := range idx {
+			in = append(in, pool[i]())
+		}
+		orig := append(ItemCollection{}, in...)
+		out := FlattenItemCollection(in)
+		// expected: drop later mentions of an id already seen; objects with id -> IRI; everything else the same item
+		var want ItemCollection
+		seen := map[IRI]bool{}
+		for _, it := range orig {
+			if !IsNil(it) && (it.IsObject() || it.IsLink()) {
+				id := it.GetLink()
+				if it.IsObject() {
+					id = it.GetID()
+				}
+				if id != "" {
+					if seen[id] {
+						continue
+					}
+					seen[id] = true
+				}
+			}
+			want = append(want, it)
+		}
+		if len(out) != len(want) {
+			t.Errorf("%v: %d entries after flattening, want %d (%v)", idx, len(out), len(want), out)
+			return
+		}
+		for k := range want {
+			w := want[k]
+			if !IsNil(w) && w.IsObject() && w.GetLink() != "" {
+				if got, ok := out[k].(IRI); !ok || got != w.GetLink() {
+					t.Errorf("%v: position %d holds %v, want the IRI %s", idx, k, out[k], w.GetLink())
+				}
+			} else if !same(out[k], w) {
+				t.Errorf("%v: position %d holds %v, want the original entry %v", idx, k, out[k], w)
+			}
+		}
+	}
+	rec = func(cur []int, depth int) {
+		if len(cur) > 0 {
+			check(cur)
+		}
+		if depth == 3 {
+			return
+		}
+		for i := range pool {
+			rec(append(append([]int{}, cur...), i), depth+1)
+		}
+	}
+	rec(nil, 0)
+}
+`
 }
